@@ -26,6 +26,7 @@ Ltac tinv H :=
     let a := fresh "a" in let E := fresh "E" in
     apply tbind_ok in H; destruct H as (a & E & H); cbv beta in H
   | (let '(x, y) := ?p in _) = TOk _ => destruct p eqn:?
+  | (let x := _ in _) = TOk _ => cbv zeta in H
   | match ?x with _ => _ end = TOk _ => destruct x eqn:?; try discriminate H
   | (if ?b then _ else _) = TOk _ => destruct b eqn:?; try discriminate H
   | type_mismatch _ _ = TOk _ => exfalso; revert H; unfold type_mismatch; clear; intros H; repeat match type of H with match ?x with _ => _ end = _ => destruct x end; discriminate H
@@ -163,3 +164,65 @@ Proof.
        try (match goal with |- _ \/ _ => first [left; reflexivity | right; assumption
              | match goal with |- context [ctx_has ?g0 ?i0] => destruct (ctx_has g0 i0); [right; eexists|left]; reflexivity end ] end).
 Qed.
+
+(* ---------- unfolding equations that keep the mutually defined functions folded ---------- *)
+Lemma tc_form_case_eq D Sg g shadow pty from brs :
+  tc_form D Sg g shadow pty (FCase from brs) =
+    if is_provider from shadow then
+      tdo pty' <- unfold_opt D pty;
+      match as_with pty' with
+      | None => type_mismatch pty' "expected a branching type"
+      | Some (bs, m) =>
+        tdo (brs', seen) <- tc_branches_provider D Sg g bs [] brs;
+        tdo _ <- guard (negb (Nat.ltb (length seen) (brs_len bs))) "some labels are not pattern matched";
+        let from' := set_nty from pty' in
+        tdo _ <- check_pols [from'];
+        TOk (FCase from' brs')
+      end
+    else
+      tdo (ct, g1) <- consume from g;
+      tdo ct' <- unfold_opt D ct;
+      match as_plus ct' with
+      | None => type_mismatch ct' "expected a select type"
+      | Some (bs, m) =>
+        tdo (brs', seen) <- tc_branches_client D Sg g1 shadow pty bs [] brs;
+        tdo _ <- guard (negb (Nat.ltb (length seen) (brs_len bs))) "some labels are not pattern matched";
+        let from' := set_nty from ct' in
+        tdo _ <- check_pols [from'];
+        TOk (FCase from' brs')
+      end.
+Proof. reflexivity. Qed.
+
+Lemma tc_branches_provider_cons D Sg g bs seen l pay k r :
+  tc_branches_provider D Sg g bs seen (BrCons l pay k r) =
+    tdo _ <- guard (negb (str_mem l seen)) "label is duplicated";
+    match find_br l bs with
+    | None => TErr "branch does not match the type"
+    | Some bt =>
+      tdo _ <- guard (negb (ctx_has g (ident pay))) "variable name already defined";
+      tdo bt' <- unfold_opt D (Some bt);
+      let pay' := set_nty pay bt' in
+      tdo _ <- check_pols [pay'];
+      tdo k' <- tc_form D Sg g (Some pay') (Some bt) k;
+      tdo (r', seen') <- tc_branches_provider D Sg g bs (l :: seen) r;
+      TOk (BrCons l pay' k' r', seen')
+    end.
+Proof. reflexivity. Qed.
+
+Lemma tc_branches_client_cons D Sg g shadow pty bs seen l pay k r :
+  tc_branches_client D Sg g shadow pty bs seen (BrCons l pay k r) =
+    tdo _ <- guard (negb (str_mem l seen)) "label is duplicated";
+    match find_br l bs with
+    | None => TErr "case does not match the type"
+    | Some bt =>
+      tdo _ <- guard (negb (is_provider pay shadow)) "you cannot assign self to a new channel";
+      tdo _ <- guard (negb (ctx_has g (ident pay))) "variable name already defined";
+      let g1 := aset (ident pay) (Some bt) g in
+      tdo bt' <- unfold_opt D (Some bt);
+      let pay' := set_nty pay bt' in
+      tdo _ <- check_pols [pay'];
+      tdo k' <- tc_form D Sg g1 shadow pty k;
+      tdo (r', seen') <- tc_branches_client D Sg g shadow pty bs (l :: seen) r;
+      TOk (BrCons l pay' k' r', seen')
+    end.
+Proof. reflexivity. Qed.
